@@ -33,6 +33,9 @@ type Prog struct {
 	discCache  []*Disc
 	ctxCache   *ctxInfo
 	liveCache  map[*ssa.Function]bool
+
+	derivedState int
+	derivedTmpl  map[derivedKey]*Sym
 }
 
 // product packages per module (DESIGN.md §1). A missing one is a hard failure.
